@@ -62,12 +62,6 @@ def _(self):
 
 
 # ------------------------------------------------------------------ State helpers (assumed: liquer.state is outside this property's FUC list)
-@assumed("liquer.state.State.clone", params=dict(self=ST), returns=ST, returns_fresh=True)
-def _(self):
-    ensures(fresh_ref(result) and result.data == self.data and result.metadata == self.metadata and not result.metadata_only,
-            "an equal, independent state")
-
-
 @assumed("liquer.state.State.__init__", params=dict(self=ST, data=Opt(Data), metadata=Opt(SMeta), context=Opt(Data)))
 def _(self, data=None, metadata=None, context=None):
     modifies(self.data, self.metadata, self.metadata_only)
